@@ -9,7 +9,7 @@ PROPS = {
         "oracle_engine": {"framing": "stream", "codec": "codec"},
         "trusted": [SYMBOLIC_CRYPTO],
         "technique": "Lean 4 theorems (round-trip by induction over accepted frame chains; send-accepts-implies-receive-accepts by case analysis) + correspondence on real streams over boundary sizes and all short compositions",
-        "level_text": "frame_roundtrip (bytes), send_accept_recv_accept (every frame a sender accepts passes the receiver's checks, both modes, first and later frames), messages_roundtrip_plain / _encrypted (ReceiveCompleteMessage loop returns exactly the sent messages for every accepted send history), typed-layer chunking theorems; kernel-checked over the model. Tied to the code by the framing and codec engines on real streams (sizes around 4 KiB / 16 KiB / 1 MiB ± GCM overhead; every composition of short messages; incremental and complete receive APIs).",
+        "level_text": "incremental_equals_complete (StartMessageRead + ReadMessageBytes(n) until end-of-message + EndMessageRead hands over exactly the message ReceiveCompleteMessage would, for every chunk size, consuming the same frames and leaving the stream clean) with readLoop_all; frame_roundtrip (bytes), send_accept_recv_accept (every frame a sender accepts passes the receiver's checks, both modes, first and later frames), messages_roundtrip_plain / _encrypted (ReceiveCompleteMessage loop returns exactly the sent messages for every accepted send history), typed-layer chunking theorems; kernel-checked over the model. Tied to the code by the framing and codec engines on real streams (sizes around 4 KiB / 16 KiB / 1 MiB ± GCM overhead; every composition of short messages; incremental and complete receive APIs).",
         "level_note": "TCP delivery reliable and in order; symbolic AEAD; model hand-written, validated by correspondence; limits regenerated from source.",
         "assumptions": ["net.Conn delivers bytes reliably and in order"],
     },
@@ -99,7 +99,7 @@ PROPS = {
         "oracle_engine": {"handoff": "stream"},
         "trusted": [SYMBOLIC_CRYPTO],
         "technique": "Lean 4 theorems (refusal condition iff, field-exact restore, rejection lemmas) + correspondence over traffic histories with export attempted at every step, chains of hand-offs, all truncations and single-byte corruptions of a blob",
-        "level_text": "export_refused_iff, export_contents, import_export (all crypto/framing fields restored verbatim), import_rejects_{short,magic,version}, readVar_truncated: kernel-checked. Continuation after hand-off inherits C02/C12 via recv_prefix_midstream and nonce_sequence (counter and IV restored). Tied to the code by the handoff engine (export at clean and unclean points on either end, chained hand-offs, continued two-way traffic checked by refcodec, every truncation/corruption of a valid blob).",
+        "level_text": "export_refused_iff, export_contents, import_export (all crypto/framing fields restored verbatim), decode_encode + blob_roundtrip (parsing the bytes written gives back exactly the fields, for every key/IV/counter/flag/digest/peer value in range), handoff_transparent (for EVERY sequence of sends, buffered writes, message ends, secrets, crypto toggles and receives of arbitrary frames the imported stream emits the same frames and delivers the same messages as the exporting stream would - a simulation proved operation by operation), handoff_chain (hand-offs compose), import_rejects_{short,magic,version}, readVar_truncated: kernel-checked. With C02.recv_prefix_midstream and C12.nonce_sequence this gives the authentic-prefix and no-nonce-reuse guarantees after the hand-off. Tied to the code by the handoff engine (export at clean and unclean points on either end, chained hand-offs, continued two-way traffic checked by refcodec, every truncation/corruption of a valid blob).",
         "level_note": "fd passing itself out of scope; digests are carried as opaque bytes after import (unused once both first frames passed).",
         "assumptions": ["the blob travels over a trusted local channel (as documented)"],
     },
@@ -109,7 +109,7 @@ PROPS = {
         "oracle_engine": {"tamper": "stream"},
         "trusted": [SYMBOLIC_CRYPTO],
         "technique": "Lean 4 theorem (invariant + induction over adversarial wire, symbolic AEAD) + correspondence/tamper fault enumeration on real streams",
-        "level_text": "recv_prefix / recv_prefix_midstream: for every send history and every Dolev-Yao rewriting of the wire, ReceiveCompleteMessage delivers a prefix of the sent messages (model theorem, kernel-checked); no_bypass: no frame is accepted without AES-GCM open. Model tied to the code by the tamper engine (single-fault catalogue + multi-faults on real keyed streams, compared with the model).",
+        "level_text": "recv_prefix / recv_prefix_midstream: for every send history in both directions and every Dolev-Yao rewriting of the wire (own bytes, the sender's seals replayed/re-headed, the RECEIVER's own seals reflected), ReceiveCompleteMessage delivers a prefix of the sent messages, under two stated session hypotheses (the two fresh IVs differ in their last 12 bytes; the receiver's two transcript digests differ, i.e. something was exchanged in clear before the key was installed) - reflection_needs_asymmetry exhibits the excluded point (model theorem, kernel-checked); no_bypass: no frame is accepted without AES-GCM open. Model tied to the code by the tamper engine (single-fault catalogue + multi-faults on real keyed streams, compared with the model).",
         "level_note": "Symbolic AEAD (free constructors); receive errors terminal; model hand-written and validated by correspondence; constants regenerated from source.",
         "assumptions": ["a receive error is terminal (the application stops reading)", "crypto/aes, crypto/cipher GCM are correct"],
     },
